@@ -4458,6 +4458,20 @@ def balanced_atom(term):
 
 # ------------------------------------------------------------------------------------------------
 
+SKIPPED_SECTIONS = []  # (section, message) of the front ends that gave up in this run
+
+
+def guarded_section(name, thunk):
+    """run one of the later front ends; if it meets a construct outside its subset, leave the section out"""
+    try:
+        return thunk()
+    except Fail as ex:
+        SKIPPED_SECTIONS.append((name, str(ex)))
+        if name == "schedule":
+            SCHED_EXPORT.clear()
+        return [f"-- [{name}] NOT TRANSLATED in this run: {str(ex).replace(chr(10), ' ')}", ""]
+
+
 def translate(repo, overrides):
     def path_of(rel):
         return overrides.get(rel, os.path.join(repo, rel))
@@ -4850,10 +4864,14 @@ def translate(repo, overrides):
     if cur is not None:
         L.append(f"end {cur}")
         L.append("")
-    L += seq_section(toks)  # third extension: sequences (Vec, iterators, loops, from_fn, library calls as EXTERNs)
-    L += sched_section(toks, lambda rel: raw_of[rel])  # [schedule extension] fourth increment: schedule.rs
-    L += dated2_section(toks)  # [dated2 extension] fifth increment: the interval consumers of date_filter.rs
-    L += eval_section(toks, lambda rel: raw_of[rel])  # [eval extension] fifth increment: opening_hours.rs
+    # The later front ends are translated section by section: a construct outside the subset in ONE of them leaves that
+    # section out (a comment says why) instead of the whole module, so that only the theorems about that section stop
+    # building — a rewrite of schedule.rs must not take the tie of ExtendedTime or CompactCalendar with it.  The main
+    # pipeline above is one unit (its functions call each other): a failure there is a failure of the translator.
+    L += guarded_section("seq", lambda: seq_section(toks))  # third extension: sequences (Vec, iterators, loops, from_fn, library calls as EXTERNs)
+    L += guarded_section("schedule", lambda: sched_section(toks, lambda rel: raw_of[rel]))  # [schedule extension] fourth increment: schedule.rs
+    L += guarded_section("dated2", lambda: dated2_section(toks))  # [dated2 extension] fifth increment: the interval consumers of date_filter.rs
+    L += guarded_section("eval", lambda: eval_section(toks, lambda rel: raw_of[rel]))  # [eval extension] fifth increment: opening_hours.rs
     L.append("end OH.Generated.Arith")
     return "\n".join(L).replace("import OH.Model.RustInt\n", "import OH.Model.RustInt\nimport OH.Model.RustSeq\nimport OH.Model.RustVec\n", 1) + "\n"
 
@@ -8049,6 +8067,8 @@ def main(argv):
         print(f"rs2lean: wrote {out}")
     else:
         print(f"rs2lean: {out} unchanged")
+    for name, msg in SKIPPED_SECTIONS:
+        print(f"rs2lean: section [{name}] NOT TRANSLATED: {msg}")
     return 0
 
 
